@@ -409,13 +409,26 @@ impl WouldApply for ContextLookup<'_> {
                 .get(glyph)
                 .and_then(|index| sets.get(index))
                 .map_or(false, |set| set.would_apply(ctx, &match_glyph)),
-            Self::Format2 { classes, sets, .. } => {
+            Self::Format2 {
+                coverage,
+                classes,
+                sets,
+            } => {
+                if coverage.get(glyph).is_none() {
+                    return false;
+                }
+
                 let class = classes.get(glyph);
                 sets.get(class)
                     .map_or(false, |set| set.would_apply(ctx, &match_class(classes)))
             }
-            Self::Format3 { coverages, .. } => {
-                ctx.glyphs.len() == usize::from(coverages.len()) + 1
+            Self::Format3 {
+                coverage,
+                coverages,
+                ..
+            } => {
+                coverage.get(glyph).is_some()
+                    && ctx.glyphs.len() == usize::from(coverages.len()) + 1
                     && coverages
                         .into_iter()
                         .enumerate()
@@ -543,23 +556,30 @@ impl WouldApply for ChainedContextLookup<'_> {
                 .and_then(|index| sets.get(index))
                 .map_or(false, |set| set.would_apply(ctx, &match_glyph)),
             Self::Format2 {
+                coverage,
                 input_classes,
                 sets,
                 ..
             } => {
+                if coverage.get(glyph_id).is_none() {
+                    return false;
+                }
+
                 let class = input_classes.get(glyph_id);
                 sets.get(class).map_or(false, |set| {
                     set.would_apply(ctx, &match_class(input_classes))
                 })
             }
             Self::Format3 {
+                coverage,
                 backtrack_coverages,
                 input_coverages,
                 lookahead_coverages,
                 ..
             } => {
-                (!ctx.zero_context
-                    || (backtrack_coverages.len() == 0 && lookahead_coverages.len() == 0))
+                coverage.get(glyph_id).is_some()
+                    && (!ctx.zero_context
+                        || (backtrack_coverages.len() == 0 && lookahead_coverages.len() == 0))
                     && (ctx.glyphs.len() == usize::from(input_coverages.len()) + 1
                         && input_coverages
                             .into_iter()
